@@ -302,6 +302,13 @@ func (c *Client) Send(e protocol.ChunkEncoder) error {
 			return err
 		}
 
+		// An empty chunk id (a RawMessage whose chunk option is "") cannot be
+		// acknowledged: it would compare equal to the zero value of any
+		// response that carries no ack at all.
+		if chunk == "" {
+			return errors.New("message has an empty chunk id")
+		}
+
 		c.ackLock.Lock()
 		defer c.ackLock.Unlock()
 	}
